@@ -1,4 +1,5 @@
 import WindVerif.Model.TmpPool
+import WindVerif.Model.TmpPoolCtx
 import WindVerif.Model.FilePoolFail
 import WindVerif.Drv.Common
 namespace WindVerif.Drv
@@ -57,6 +58,16 @@ def tmppoolStep (st : TPState) (ws : List String) : TPState × String :=
   | ["unlink", p] => match p.toNat? with
     | some p => fin (s.unlink p) "ok"
     | none => (st, "bad-op")
+  -- `enter mp` (`mp` = 0/1: the pool's `multi_proc`): `__enter__` as a step (`Model/TmpPoolCtx.lean`); `enter_fresh`: the
+  -- `__enter__` before the repair D21 (the new manager list is empty)
+  | ["enter", mp] => match mp.toNat? with
+    | some 0 => fin (TmpPoolCtx.enter false s) "ok"
+    | some 1 => fin (TmpPoolCtx.enter true s) "ok"
+    | _ => (st, "bad-op")
+  | ["enter_fresh", mp] => match mp.toNat? with
+    | some 0 => fin (TmpPoolCtx.enterFresh false s) "ok"
+    | some 1 => fin (TmpPoolCtx.enterFresh true s) "ok"
+    | _ => (st, "bad-op")
   | ["exit"] => (match s.exit with | .ok s' => fin s' "ok" | .error e => fin s s!"err {tpErr e}")
   | ["raise"] => (match s.exit with | .ok s' => fin s' "ok" | .error e => fin s s!"err {tpErr e}")
   | "fp_new" :: fs => match parseNatsTP fs with
